@@ -44,6 +44,8 @@ func Names() []string {
 // Synthetic names the zone built by JumpsToday (a missing and a repeated hour on every day of the current week).
 const Synthetic = "Synthetic/JumpsToday"
 
+var fbMu sync.Mutex
+var fbZones = map[string]*time.Location{}
 var synthOnce sync.Once
 var synth *time.Location
 
@@ -74,6 +76,32 @@ func Loc(name string) *time.Location {
 			}
 			return time.FixedZone(rest[:i], off)
 		}
+	}
+	if strings.HasPrefix(name, "Synthetic/FallsBackIn/") {
+		// "Synthetic/FallsBackIn/<minutes>": the clock falls back <minutes> from now (negative: it did so that many minutes ago);
+		// built once per process and name
+		fbMu.Lock()
+		defer fbMu.Unlock()
+		if l, ok := fbZones[name]; ok {
+			return l
+		}
+		minutes, neg := 0, false
+		for _, ch := range name[len("Synthetic/FallsBackIn/"):] {
+			if ch == '-' {
+				neg = true
+			} else if ch >= '0' && ch <= '9' {
+				minutes = minutes*10 + int(ch-'0')
+			}
+		}
+		if neg {
+			minutes = -minutes
+		}
+		l := FallsBackAt(time.Now().Add(time.Duration(minutes) * time.Minute).Truncate(time.Minute))
+		if l == nil {
+			l = time.UTC
+		}
+		fbZones[name] = l
+		return l
 	}
 	if name == Synthetic {
 		synthOnce.Do(func() { synth = JumpsToday() })
